@@ -645,8 +645,11 @@ def check(ctx):
     ctx.floor("R1", "aligned writer/reader line pairs", n_al, 5)
     # "Snapshot (%s)"
     ds = repo.method("GeckoShell", "do_snapshot")
-    hdr = [n for n in ast.walk(ds.node) if isinstance(n, ast.Call) and n.args and isinstance(n.args[0], ast.Constant) and "Snapshot" in str(n.args[0].value)]   # logger.info / a local bound to it
-    ok = len(hdr) == 1 and hdr[0].args[0].value == "Snapshot (%s)"
+    def _text19(e_):
+        v_ = e_.value if isinstance(e_, ast.Constant) else repo.try_fold(e_, ds.mod, ds.cls)     # a literal, or a named constant holding it
+        return v_ if isinstance(v_, str) else None
+    hdr = [n for n in ast.walk(ds.node) if isinstance(n, ast.Call) and n.args and "Snapshot" in (_text19(n.args[0]) or "")]   # logger.info / a local bound to it
+    ok = len(hdr) == 1 and _text19(hdr[0].args[0]) == "Snapshot (%s)"
     ctx.ob("R1", "line::Snapshot-header", ok and "_re_snapshot_alt" in by_fn and regex_skeleton(by_fn["_re_snapshot_alt"]) == [("lit", "Snapshot ("), ("group", "any"), ("lit", ")")],
            "the `Snapshot (<name>)` header written by do_snapshot is not what _re_snapshot_alt reads", ds.loc)
     # the name survives: the header line as the shell's two log formats carry it, for names with brackets and blanks,
